@@ -40,6 +40,8 @@ package netpoll
 //@     && c.operator != nil && c.readTrigger != nil && c.writeTrigger != nil
 
 //@ pred cblist() = forall n *callbackNode :: n != nil ==> n.fn#id != 0
+// callback nodes are created only by AddCloseCallback, which refuses a nil callback (its own obligation); nothing else writes callbackNode.fn
+//@ worldrely cblist()
 // everything about a connection that stays true whatever other goroutines and user callbacks do through the public API
 //@ pred cinv(c *connection) = connok(c) && cblist() && c.operator.detached >= 0 && c.operator.detached < 2147483000
 //@     && (c.closeCallbacks.v == nil || typeis(c.closeCallbacks.v, *callbackNode)) && c.state >= 0 && c.state <= 2
@@ -247,7 +249,7 @@ package netpoll
 //@     FDOperator.FD, FDOperator.OnRead, FDOperator.OnWrite, FDOperator.OnHup, FDOperator.Inputs, FDOperator.InputAck, FDOperator.Outputs, FDOperator.OutputAck, FDOperator.poll, FDOperator.detached
 //@ iface Poll.Alloc
 //@   results operator
-//@   ensures operator != nil && operator.owned && operator.detached == 0 && !operator.opheld
+//@   ensures operator != nil && operator.owned && operator.detached == 0 && !operator.opheld && operator.poll != nil
 //@   ensures forall o *FDOperator :: o != operator && wasalloc(o) ==> o.owned == old(o.owned)
 //@   ensures wasalloc(operator) ==> !old(operator.owned)
 //@   modifies FDOperator.owned, operatorCache.first, operatorCache.cache, operatorCache.locked, operatorCache.ocl, FDOperator.slot, FDOperator.rank, FDOperator.cacheof, FDOperator.next, FDOperator.poll, mem:*FDOperator, ocBase
@@ -510,23 +512,27 @@ package netpoll
 //@ ghost global prepOK bool
 // the slot pointer of a connection is set once, by initFDOperator, before the connection is visible to anybody else
 //@ owned C09 : connection.operator by (*connection).initFDOperator
+// what setting up a connection leaves behind on the calling goroutine: either nothing is held, or the connection was closed meanwhile
+// (by the user's OnPrepare or by a failed registration) and the processing lock stays taken for good (sealed) after the close callbacks
+//@ pred setupdone(c *connection) = cinv(c) && !c.heldC && c.heldP == c.sealed_heldP && (c.sealed_heldP ==> c.keychain[closing] != 0)
 //@ functype field netpoll.options.onPrepare
 //@   params connection
 //@   results ctx
-//@   note user callback: uses the public API only, which keeps the connection invariant
-//@   ensures typeis(connection, *connection) ==> cinv(as(connection, *connection))
-//@   modifies world
+//@   note user callback: uses the public API only (it may Close the connection), which keeps the connection invariant
+//@   ensures typeis(connection, *connection) ==> setupdone(as(connection, *connection))
+//@   modifies world, locker.heldP, locker.sealed_heldP
 //@ func (*connection).register
 //@   property C09
-//@   requires cinv(c) && c.operator.poll != nil && !c.heldP && !c.sealed_heldP
-//@   ensures err == nil ==> true
-//@   modifies world, c.heldP, c.heldC, c.sealed_heldP, locker.keychain
+//@   requires cinv(c) && c.operator.poll != nil && !c.heldP && !c.sealed_heldP && !c.heldC
+//@   ensures setupdone(c)
+//@   modifies world, c.heldP, c.sealed_heldP, cbRuns
 //@ func (*connection).onPrepare
 //@   property C09
 //@   requires cinv(c) && c.operator.poll != nil && c.operator.owned && !c.heldP && !c.heldC && !c.sealed_heldP
 //@   threadlocal !prepDone && !prepRegistered
 //@   ensures prepRegistered ==> prepOK
-//@   modifies world, c.heldP, c.heldC, c.sealed_heldP, locker.keychain, prepDone, prepRegistered, prepOK
+//@   ensures setupdone(c)
+//@   modifies world, locker.heldP, c.heldC, locker.sealed_heldP, locker.keychain, prepDone, prepRegistered, prepOK, cbRuns
 //@   ghost after call dyn.onPrepare#1: prepDone = true
 //@   ghost before call (*connection).register#1: prepOK = opts == nil || opts.onPrepare == nil || prepDone; assert prepOK; prepRegistered = true
 //@ func (*connection).SetOnConnect
